@@ -602,8 +602,6 @@ def _native_reopen(tier="quick", seed=0):
                         "evaluations": evals, "samples": [{"set": "Shape.rotation = 45.5"}], "counted_as_proved": False}}
 
 
-JOBS = {"C09.native_reopen": _native_reopen}
-
 
 # --------------------------------------------------------------------------------------------
 # ColorFormat: assigning the colour value leaves the brightness adjustment alone (and vice versa) once the kind is fixed
@@ -654,3 +652,332 @@ def _rgb_frame(c):
     c.ensures("frame.colour_choice_not_recreated", not xfill_calls)
     c.ensures("post.only_val_is_written", writes == [("set", "val", "010203")])
     c.ensures("frame.same_colour_object", cf.fields["_color"] is color)
+
+
+# ---------------------------------------------------------------------------------------------------------
+# BOUNDED: every read/write property met on a rich deck (and on corpus decks), assigned each value of its documented domain from
+# different prior values, read back, reset with None where documented, and read again after save / re-open
+
+
+def _domains():
+    """(defining class, property) -> {"vals": in-domain values (boundary and interior), "none": reading after None (only where
+    None is documented), "tol": absolute tolerance for floats, "group": names of the object's other independent properties}"""
+    from pptx.dml.color import RGBColor
+    from pptx.enum.chart import XL_AXIS_CROSSES, XL_DATA_LABEL_POSITION, XL_LEGEND_POSITION, XL_MARKER_STYLE, XL_TICK_LABEL_POSITION, XL_TICK_MARK
+    from pptx.enum.dml import MSO_LINE_DASH_STYLE, MSO_PATTERN_TYPE, MSO_THEME_COLOR
+    from pptx.enum.lang import MSO_LANGUAGE_ID
+    from pptx.enum.shapes import MSO_SHAPE
+    from pptx.enum.text import MSO_ANCHOR, MSO_AUTO_SIZE, MSO_TEXT_UNDERLINE_TYPE, PP_ALIGN
+    from pptx.util import Emu, Pt
+
+    pos = [Emu(0), Emu(-914400), Emu(123456789), Emu(27273042316900), Emu(-27273042329600), Emu(1)]
+    ext = [Emu(0), Emu(1), Emu(914400), Emu(27273042316900), Emu(12700)]
+    inset = [Emu(0), Emu(45720), Emu(91440), Emu(914400), Emu(1)]
+    bools = [True, False]
+    geom = ("left", "top", "width", "height", "rotation", "name")
+    D = {}
+
+    def put(cls, names, **kw):
+        for n in ([names] if isinstance(names, str) else names):
+            D[(cls, n)] = dict(kw)
+
+    put("Presentation", ("slide_width", "slide_height"), vals=[Emu(914400), Emu(9144000), Emu(51206400), Emu(6858000)], group=("slide_width", "slide_height"))
+    put("_BaseSlide", "name", vals=["Slide A", 'n"&<>', "x"])
+    put("BaseShape", ("left", "top"), vals=pos, group=geom)
+    put("BaseShape", ("width", "height"), vals=ext, group=geom)
+    put("BaseShape", "rotation", vals=[0.0, 45.5, 359.9, 90.0, 180.0, 0.01], tol=1 / 60000, group=geom)
+    put("BaseShape", "name", vals=["x", 'N"a&<me>', "Name 2"], group=geom)
+    put("_InheritsDimensions", ("left", "top"), vals=pos, group=("left", "top", "width", "height"))
+    put("_InheritsDimensions", ("width", "height"), vals=ext, group=("left", "top", "width", "height"))
+    # a connector end point is refused (ValueError) when the resulting extent would leave 0..27273042316900: the other end decides
+    put("Connector", ("begin_x", "begin_y", "end_x", "end_y"), vals=[Emu(0), Emu(914400), Emu(5), Emu(2000000), Emu(914400)], group=("begin_x", "begin_y", "end_x", "end_y"), may_refuse=True)
+    tfg = ("margin_left", "margin_right", "margin_top", "margin_bottom", "word_wrap", "auto_size", "vertical_anchor")
+    put("TextFrame", "margin_left", vals=inset, group=tfg)
+    put("TextFrame", "margin_right", vals=inset, group=tfg)
+    put("TextFrame", ("margin_top", "margin_bottom"), vals=inset, group=tfg)
+    put("TextFrame", "word_wrap", vals=bools, none=None, group=tfg)
+    put("TextFrame", "auto_size", vals=[MSO_AUTO_SIZE.NONE, MSO_AUTO_SIZE.SHAPE_TO_FIT_TEXT, MSO_AUTO_SIZE.TEXT_TO_FIT_SHAPE], none=None, group=tfg)
+    put("TextFrame", "vertical_anchor", vals=[MSO_ANCHOR.TOP, MSO_ANCHOR.MIDDLE, MSO_ANCHOR.BOTTOM], none=None, group=tfg)
+    pg = ("alignment", "level", "line_spacing", "space_before", "space_after")
+    put("_Paragraph", "alignment", vals=[PP_ALIGN.CENTER, PP_ALIGN.LEFT, PP_ALIGN.RIGHT, PP_ALIGN.JUSTIFY, PP_ALIGN.DISTRIBUTE], none=None, group=pg)
+    put("_Paragraph", "level", vals=[0, 1, 8, 4], group=pg)
+    put("_Paragraph", "line_spacing", vals=[1.5, Pt(18), 2.0, Pt(0), 0.9, Pt(1584), 1, Pt(12)], none=None, tol=1e-5, group=pg)
+    put("_Paragraph", ("space_before", "space_after"), vals=[Pt(6), Pt(0), Pt(1584), Pt(0.5)], none=None, group=pg)
+    fg = ("bold", "italic", "name", "size", "underline", "language_id")
+    put("Font", ("bold", "italic"), vals=bools, none=None, group=fg)
+    put("Font", "name", vals=["Arial", 'A "b" <c>&', "x"], none=None, group=fg)
+    put("Font", "size", vals=[Pt(18), Pt(1), Pt(4000), Pt(10.5), Pt(12.34)], none=None, group=fg)
+    put("Font", "underline", vals=[True, False, MSO_TEXT_UNDERLINE_TYPE.DOUBLE_LINE, MSO_TEXT_UNDERLINE_TYPE.WAVY_LINE, True], none=None, group=fg)
+    put("Font", "language_id", vals=[MSO_LANGUAGE_ID.FRENCH, MSO_LANGUAGE_ID.ENGLISH_US, MSO_LANGUAGE_ID.POLISH], none=MSO_LANGUAGE_ID.NONE, group=fg)
+    put("LineFormat", "width", vals=[Pt(2.5), Emu(0), Emu(20116800), Emu(12700), Emu(1)], group=("width", "dash_style"))
+    put("LineFormat", "dash_style", vals=[MSO_LINE_DASH_STYLE.DASH, MSO_LINE_DASH_STYLE.SOLID, MSO_LINE_DASH_STYLE.ROUND_DOT, MSO_LINE_DASH_STYLE.LONG_DASH_DOT], none=None, group=("width", "dash_style"))
+    put("_BasePicture", ("crop_left", "crop_right", "crop_top", "crop_bottom"), vals=[0.0, 0.25, -0.1, 1.0, 0.33333], tol=1e-5, group=("crop_left", "crop_right", "crop_top", "crop_bottom"))
+    put("Picture", "auto_shape_type", vals=[MSO_SHAPE.OVAL, MSO_SHAPE.RECTANGLE, MSO_SHAPE.ROUNDED_RECTANGLE, MSO_SHAPE.ISOSCELES_TRIANGLE])
+    put("Chart", "chart_style", vals=[1, 48, 10, 2], none=None, group=("chart_style", "has_legend", "has_title"))
+    put("Chart", ("has_legend", "has_title"), vals=bools + [True], group=("chart_style", "has_legend", "has_title"))
+    ag = ("has_major_gridlines", "has_minor_gridlines", "major_tick_mark", "minor_tick_mark", "maximum_scale", "minimum_scale", "reverse_order", "tick_label_position", "visible", "has_title")
+    put("_BaseAxis", ("has_major_gridlines", "has_minor_gridlines", "has_title", "reverse_order", "visible"), vals=bools + [True, False], group=ag)
+    put("_BaseAxis", ("major_tick_mark", "minor_tick_mark"), vals=[XL_TICK_MARK.INSIDE, XL_TICK_MARK.CROSS, XL_TICK_MARK.NONE, XL_TICK_MARK.OUTSIDE], group=ag)
+    put("_BaseAxis", ("maximum_scale", "minimum_scale"), vals=[10.0, -2.5, 0.0, 1e6, 12.75], none=None, tol=0, group=ag)
+    put("_BaseAxis", "tick_label_position", vals=[XL_TICK_LABEL_POSITION.HIGH, XL_TICK_LABEL_POSITION.LOW, XL_TICK_LABEL_POSITION.NONE, XL_TICK_LABEL_POSITION.NEXT_TO_AXIS], group=ag)
+    put("ValueAxis", ("major_unit", "minor_unit"), vals=[1.0, 0.25, 100.0, 12.75], none=None, tol=0, group=ag + ("major_unit", "minor_unit"))
+    put("ValueAxis", "crosses", vals=[XL_AXIS_CROSSES.MAXIMUM, XL_AXIS_CROSSES.MINIMUM, XL_AXIS_CROSSES.AUTOMATIC])
+    put("ValueAxis", "crosses_at", vals=[2.0, 0.0, -7.25], none=None, tol=0)
+    put("TickLabels", "offset", vals=[0, 100, 1000, 250], group=("offset",), may_refuse=True)  # "only a category axis has an offset"
+    put("TickLabels", "number_format", vals=["0.00", '#,##0 "R&D"', "General", "0%"], group=("offset",))
+    put("TickLabels", "number_format_is_linked", vals=bools + [True], group=("offset", "number_format"))
+    put("Marker", "size", vals=[2, 72, 9, 30], none=None, group=("size", "style"))
+    put("Marker", "style", vals=[XL_MARKER_STYLE.CIRCLE, XL_MARKER_STYLE.DIAMOND, XL_MARKER_STYLE.NONE, XL_MARKER_STYLE.SQUARE], none=None, group=("size", "style"))
+    put("DataLabel", "position", vals=[XL_DATA_LABEL_POSITION.CENTER, XL_DATA_LABEL_POSITION.INSIDE_END, XL_DATA_LABEL_POSITION.OUTSIDE_END], none=None)
+    put("DataLabel", "has_text_frame", vals=bools + [True])
+    put("_BasePlot", "vary_by_categories", vals=bools + [True], group=("has_data_labels",))
+    put("_BasePlot", "has_data_labels", vals=bools + [True], group=("vary_by_categories",))
+    put("BarPlot", "gap_width", vals=[0, 150, 500, 37], group=("overlap", "vary_by_categories"))
+    put("BarPlot", "overlap", vals=[-100, 0, 100, 37], group=("gap_width", "vary_by_categories"))
+    lg = ("horz_offset", "include_in_layout", "position")
+    put("Legend", "horz_offset", vals=[0.25, -1.0, 1.0, 0.0, -0.3333], tol=1e-9, group=lg)
+    put("Legend", "include_in_layout", vals=bools + [True], group=lg)
+    put("Legend", "position", vals=[XL_LEGEND_POSITION.BOTTOM, XL_LEGEND_POSITION.TOP, XL_LEGEND_POSITION.CORNER, XL_LEGEND_POSITION.LEFT, XL_LEGEND_POSITION.RIGHT], group=lg)
+    put("ChartTitle", "has_text_frame", vals=bools + [True])
+    put("AxisTitle", "has_text_frame", vals=bools + [True])
+    dg = ("show_category_name", "show_legend_key", "show_percentage", "show_series_name", "show_value", "position")
+    put("DataLabels", dg[:5], vals=bools + [True], group=dg)
+    put("DataLabels", "position", vals=[XL_DATA_LABEL_POSITION.CENTER, XL_DATA_LABEL_POSITION.INSIDE_END, XL_DATA_LABEL_POSITION.INSIDE_BASE], none=None, group=dg)
+    put("DataLabels", "number_format", vals=["0.00", '#,##0 "R&D"', "General"], group=dg)
+    put("DataLabels", "number_format_is_linked", vals=bools + [True], group=dg + ("number_format",))
+    tg = ("first_col", "first_row", "horz_banding", "last_col", "last_row", "vert_banding")
+    put("Table", tg, vals=bools + [True], group=tg)
+    put("_Row", "height", vals=[Emu(370840), Emu(0), Emu(914400), Emu(1)])
+    put("_Column", "width", vals=[Emu(370840), Emu(0), Emu(914400), Emu(1)])
+    cg = ("margin_left", "margin_right", "margin_top", "margin_bottom", "vertical_anchor")
+    put("_Cell", ("margin_left", "margin_right"), vals=inset, none=Emu(91440), group=cg)
+    put("_Cell", ("margin_top", "margin_bottom"), vals=inset, none=Emu(45720), group=cg)
+    put("_Cell", "vertical_anchor", vals=[MSO_ANCHOR.TOP, MSO_ANCHOR.MIDDLE, MSO_ANCHOR.BOTTOM], none=None, group=cg)
+    put("ShadowFormat", "inherit", vals=bools + [True, False])
+    # prepared contexts (see _prepared): colour kinds and fill kinds
+    put("ColorFormat", "rgb", vals=[RGBColor(0x12, 0x34, 0x56), RGBColor(0, 0, 0), RGBColor(0xFF, 0xFF, 0xFF), RGBColor(0xAB, 0xCD, 0xEF)])
+    put("ColorFormat", "theme_color", vals=[MSO_THEME_COLOR.ACCENT_1, MSO_THEME_COLOR.DARK_2, MSO_THEME_COLOR.HYPERLINK, MSO_THEME_COLOR.TEXT_1])
+    put("ColorFormat", "brightness", vals=[-0.25, 0.4, 0, 1.0, -1.0, 0.123, 0], tol=1e-5)
+    put("FillFormat", "gradient_angle", vals=[0.0, 45.0, 90.5, 359.0, 180.0], tol=1 / 60000)
+    put("FillFormat", "pattern", vals=[MSO_PATTERN_TYPE.CROSS, MSO_PATTERN_TYPE.WAVE, MSO_PATTERN_TYPE.PERCENT_5, MSO_PATTERN_TYPE.WIDE_UPWARD_DIAGONAL], none=None)
+    return D
+
+
+def _same(got, want, tol):
+    if isinstance(want, float) or isinstance(got, float):
+        if got is None or want is None or isinstance(got, (str, bytes)):
+            return got == want
+        return abs(float(got) - float(want)) <= (tol if tol else 0) or got == want
+    if isinstance(want, bool) or want is None:
+        return got is want
+    return got == want and (type(got) is type(want) or not isinstance(want, bool))
+
+
+def _native_setget_sweep(tier="quick", seed=0):
+    import glob
+    import inspect as _insp
+    import io
+    import os
+    import random
+    import time as _t
+
+    from pptx import Presentation
+    from pptx.util import Length
+
+    from .c03 import _ops
+    from .c12 import _walk
+
+    t0 = _t.time()
+    D = _domains()
+    obls, evals = [], [0]
+
+    def rec(name, bad):
+        r = {"name": name, "base": name, "kind": "bounded", "status": "refuted" if bad else "discharged", "backend": "native", "time": 0, "path": 0}
+        if bad:
+            r["replay"] = {"confirmed": True, "witness_class": "set-get", "detail": bad}
+            r["model"] = None
+        obls.append(r)
+
+    def rich_deck(sd):
+        prs = Presentation()
+        rnd = random.Random(sd)
+        for op in _ops():
+            if op.__name__ in ("op_rejected", "op_setter_fuzz", "op_links"):
+                continue
+            try:
+                op(prs, rnd)
+            except ValueError:
+                pass
+        return prs
+
+    def key_of(o, n):
+        for k in type(o).__mro__:
+            if n in k.__dict__:
+                return (k.__name__, n)
+        return (type(o).__name__, n)
+
+    def targets(prs, per_key):
+        objs = []
+        _walk(prs, lambda o, n: (objs.append((o, n)), getattr(o, n))[1], skip={("Slide", "notes_slide"), ("Presentation", "notes_master"), ("_Background", "fill")}, budget=2500)
+        out, count = [], {}
+        for o, n in objs:
+            d = _insp.getattr_static(type(o), n, None)
+            if not (isinstance(d, property) and d.fset is not None):
+                continue
+            k = key_of(o, n)
+            if k not in D:
+                continue
+            ck = (k, type(o).__name__)
+            if count.get(ck, 0) >= per_key:
+                continue
+            count[ck] = count.get(ck, 0) + 1
+            out.append((o, n, k))
+        return out, objs
+
+    def prepare(o, k):
+        """bring the object into the state in which the property is defined (documented TypeError otherwise)"""
+        if k[0] == "FillFormat":
+            o.gradient() if k[1] == "gradient_angle" else o.patterned()
+        if k == ("ColorFormat", "brightness"):
+            from pptx.dml.color import RGBColor
+            try:
+                o.brightness
+            except Exception:
+                o.rgb = RGBColor(1, 2, 3)
+
+    def read_group(o, names, skip):
+        out = {}
+        for a in names:
+            if a == skip or not hasattr(type(o), a):
+                continue
+            try:
+                out[a] = getattr(o, a)
+            except Exception as e:
+                out[a] = "raises %s" % type(e).__name__
+        return out
+
+    found = {}  # signature -> first witness
+
+    def sweep(prs, label, per_key, rnd):
+        """returns a description of a crash, if any; mismatches are collected in `found` under '<class>.<property>:<kind>'"""
+        tg, _ = targets(prs, per_key)
+        for o, n, k in tg:
+            spec = D[k]
+            cls = type(o).__name__
+            try:
+                prepare(o, k)
+                first = getattr(o, n)
+            except Exception:
+                continue  # property not defined for this object in its present state
+            if k == ("FillFormat", "gradient_angle") and first is None:
+                continue  # not a linear gradient: the setter is documented to refuse
+            vals = list(spec["vals"])
+            order = vals + list(reversed(vals))
+            if "none" in spec:
+                order = vals[:2] + [None] + order + [None, vals[0]]
+            for v in order:
+                evals[0] += 1
+                before = read_group(o, spec.get("group", ()), n)
+                try:
+                    setattr(o, n, v)
+                except ValueError as e:
+                    if spec.get("may_refuse"):
+                        # a documented refusal that depends on the object's other values (what a refusal leaves behind is probed
+                        # deterministically below); the object is left alone from here on
+                        break
+                    found.setdefault("%s.%s:raises" % (k[0], n), "%s: %s.%s = %r (previous reading %r) raised %r" % (label, cls, n, v, first, e))
+                    break
+                except Exception as e:
+                    found.setdefault("%s.%s:raises" % (k[0], n), "%s: %s.%s = %r (previous reading %r) raised %r" % (label, cls, n, v, first, e))
+                    break
+                try:
+                    got = getattr(o, n)
+                except Exception as e:
+                    found.setdefault("%s.%s:reading-raises" % (k[0], n), "%s: %s.%s = %r then reading raised %r" % (label, cls, n, v, e))
+                    break
+                want = spec["none"] if v is None else v
+                tol = spec.get("tol", 0)
+                ok = _same(got, want, tol) or (k == ("Font", "size") and v is not None and got is not None and 0 <= int(v) - int(got) < 127)
+                if not ok:
+                    found.setdefault("%s.%s:%s" % (k[0], n, "none-does-not-restore" if v is None else "reads-back-differently"),
+                                     "%s: %s.%s = %r (after %r) reads back %r" % (label, cls, n, v, first, got))
+                    break
+                after = read_group(o, spec.get("group", ()), n)
+                if after != before:
+                    ch = sorted(a for a in before if before[a] != after.get(a))
+                    found.setdefault("%s.%s:changes-%s" % (k[0], n, ch[0]), "%s: %s.%s = %r changed the reading of %s from %r to %r" % (label, cls, n, v, ch[0], before[ch[0]], after[ch[0]]))
+                    break
+                first = got
+        return None
+
+    def scalars(prs):
+        out = []
+
+        def visit(o, n):
+            v = getattr(o, n)
+            if v is None or isinstance(v, (bool, int, float, str)) or type(v).__module__.startswith("pptx.enum") or type(v).__name__ == "RGBColor":
+                out.append((type(o).__name__, n, repr(v)))
+            return v
+
+        _walk(prs, visit, skip={("Slide", "notes_slide"), ("Presentation", "notes_master"), ("_Background", "fill"), ("_BaseShapes", "turbo_add_enabled")}, budget=2500)
+        return out
+
+    decks = [("rich_deck", rich_deck(seed))]
+    if tier != "quick":
+        repo = os.environ.get("PPTX_REPO", "/repo")
+        for f in sorted(glob.glob(os.path.join(repo, "features", "steps", "test_files", "*.pptx"))):
+            decks.append((os.path.basename(f), Presentation(f)))
+        decks.append(("rich_deck2", rich_deck(seed + 17)))
+    rnd = random.Random(seed)
+    for label, prs in decks:
+        bad = sweep(prs, label, 3 if tier == "quick" else 6, rnd)
+        rec("C09.native.assign_read_reset[%s]" % label, bad)
+        if bad:
+            continue
+        # the final state is read the same after save / re-open
+        bad2 = None
+        try:
+            a = scalars(prs)  # (also settles the elements that reading creates, see the C12 findings)
+            a = scalars(prs)
+            buf = io.BytesIO()
+            prs.save(buf)
+            b = scalars(Presentation(io.BytesIO(buf.getvalue())))
+            if a != b:
+                diff = [(x, y) for x, y in zip(a, b) if x != y][:1] or [("in memory %d readings" % len(a), "re-opened %d readings" % len(b))]
+                bad2 = "%s: after the sweep, in memory %s.%s reads %s but the saved and re-opened deck gives %s.%s = %s" % (
+                    (label,) + tuple(diff[0][0]) + tuple(diff[0][1])) if len(diff[0][0]) == 3 else "%s: %s vs %s" % (label, diff[0][0], diff[0][1])
+        except Exception as e:
+            bad2 = "%s: save / re-open after the sweep raised %r" % (label, e)
+        rec("C09.native.sweep_state_survives_reopen[%s]" % label, bad2)
+    for sig, wit in sorted(found.items()):
+        rec("C09.native.setget[%s]" % sig, wit)
+    # a refused assignment leaves every reading as it was: connector end points, whose acceptance depends on the other end
+    from pptx.enum.shapes import MSO_CONNECTOR
+    from pptx.util import Emu
+
+    TOP = 27273042316900
+    for attr, start, moved in (("begin_y", (0, 0, 10, 457200), "top"), ("begin_x", (0, 0, 457200, 10), "left"),
+                               ("end_y", (0, 457200, 10, 0), "top"), ("end_x", (457200, 0, 0, 10), "left")):
+        v = 0
+        prs = Presentation()
+        cx = prs.slides.add_slide(prs.slide_layouts[6]).shapes.add_connector(MSO_CONNECTOR.STRAIGHT, *[Emu(q) for q in start])
+        setattr(cx, moved, Emu(TOP))  # a valid position: the far end now lies beyond the coordinate range, which is never stored
+        read = lambda: (cx.begin_x, cx.begin_y, cx.end_x, cx.end_y)
+        was = read()
+        bad = None
+        try:
+            setattr(cx, attr, Emu(v))
+            if getattr(cx, attr) != v:
+                bad = "Connector%r.%s = %d accepted but reads %r" % (was, attr, v, getattr(cx, attr))
+        except ValueError as e:
+            if read() != was:
+                bad = "Connector with (begin_x, begin_y, end_x, end_y) = %r: %s = %d is refused (%s) yet the readings become %r" % (was, attr, v, e, read())
+        rec("C09.native.refused_assignment_leaves_readings[Connector.%s]" % attr, bad)
+    return {"contract": "C09.native_setget_sweep", "prop": "C09", "status": "ok", "obligations": obls, "paths": 0, "assumed": [], "functions": {},
+            "notes": [], "solver_s": 0.0, "wall_s": _t.time() - t0,
+            "bounded": {"name": "C09.native_setget_sweep", "bound": "%d read/write properties with hand-listed documented domains; every value assigned from two different prior values (forwards and backwards through "
+                        "the list), None where documented, other properties of the object re-read; on a deck holding every shape kind%s; then save / re-open" % (len(D), "" if tier == "quick" else " and on every corpus deck"),
+                        "evaluations": evals[0], "samples": [], "counted_as_proved": False}}
+
+
+JOBS = {"C09.native_reopen": _native_reopen, "C09.native_setget_sweep": _native_setget_sweep}
